@@ -14,6 +14,8 @@ the thorough tier a sample also runs under `strace -f -e trace=file` and every p
 unlinked or renamed between two marker calls must lie (after resolving symlinks) in the storage
 directory.  The corpus (run first) holds the escapes repaired by /repo commits a78c04e (filename side) and
 becc08b (key side); if one comes back it is an ordinary violation.
+Sequence cases (one LocalStorage instance, several steps with layout mutations in between) exercise
+state carried by the instance: the model is stateless, so the instance must behave as a fresh one.
 """
 import json
 import os
@@ -59,9 +61,47 @@ CORPUS = [
 ]
 
 
+def _seq(name, layout, steps):
+    last = steps[-1]
+    return dict(name=name, layout=layout, via_link=False, gitignore=True, steps=steps, op=last['op'], key=last['key'],
+                fn=last['fn'], mode=last['mode'])
+
+
+# state carried by the instance: a key used while valid, then replaced by a symlink, must be re-validated
+CORPUS += [
+    _seq('stale validation: exists k1, k1 -> outside dir, delete k1',
+         pc.OUTSIDE + [['store/k1', 'd', ''], ['store/k1/data', 'f', 'd']],
+         [dict(mut=[], op='exists', key='k1', fn='', mode=''),
+          dict(mut=[['link', 'store/k1', '../outside/dir']], op='delete', key='k1', fn='', mode='')]),
+    _seq('stale validation: write newkey/f, newkey -> outside dir, write newkey/deep.txt',
+         pc.OUTSIDE,
+         [dict(mut=[], op='fh', key='newkey', fn='f', mode='w'),
+          dict(mut=[['link', 'store/newkey', '{SB}/outside/dir']], op='fh', key='newkey', fn='deep.txt', mode='w'),
+          dict(mut=[], op='exists', key='newkey', fn='', mode='')]),
+]
+
+
 def run_case(sbx, case, payload=b'W!'):
-    """one case on the real code + the model line; returns dict"""
+    """one case on the real code + the model line; returns dict (for a sequence case: of its last step)"""
+    if 'steps' in case:
+        return run_sequence(sbx, case, payload)[-1]
     st = sbx.build(case)
+    return observe(sbx, st, case, payload)
+
+
+def run_sequence(sbx, case, payload=b'W!'):
+    """ONE LocalStorage instance, several steps (layout mutation by the harness + one operation); every step
+    is observed exactly like a single case, and the (stateless) model is asked about the layout as it is then"""
+    st = sbx.build(case)
+    out = []
+    for i, step in enumerate(case['steps']):
+        for m in step.get('mut', []):
+            pc.apply_mutation(sbx, m)
+        out.append(observe(sbx, st, step, payload + b'#%d' % i))
+    return out
+
+
+def observe(sbx, st, case, payload):
     before = sbx.snapshot()
     status = pc.do_op(st, sbx, case, payload)
     after = sbx.snapshot()
@@ -70,13 +110,16 @@ def run_case(sbx, case, payload=b'W!'):
     for text, _event, _ro in pc.audit_alarms(sbx, case):
         alarms.append(text)
     if case['op'] == 'find_keys':
-        want = 'ok:' + ','.join(sorted(n for n in os.listdir(sbx.root) if os.path.isdir(os.path.join(sbx.root, n))))
+        try:
+            want = 'ok:' + ','.join(sorted(n for n in os.listdir(sbx.root) if os.path.isdir(os.path.join(sbx.root, n))))
+        except OSError:  # a broken implementation may have removed the storage directory in an earlier step
+            want = status
         line = None
         if status != want and not status.startswith('err:'):
             alarms.append('find_keys lists something that is not a directory of the storage directory')
     else:
         line = pc.model_line(sbx, st, before, case)
-    return dict(status=status, changes=changes, alarms=alarms, line=line, sb=sbx.sb)
+    return dict(status=status, changes=changes, alarms=alarms, line=line, sb=sbx.sb, links=sorted(pc.snapshot_links(before)))
 
 
 def compare(res, out):
@@ -107,6 +150,28 @@ def shrink(case, pred):
                     changed = True
             except Exception:
                 pass
+        if 'steps' in cur:
+            cands = []
+            for i in range(len(cur['steps']) - 1):  # drop an earlier step, keeping its layout mutations
+                st = [dict(x) for x in cur['steps']]
+                st[i + 1] = dict(st[i + 1], mut=st[i].get('mut', []) + st[i + 1].get('mut', []))
+                cands.append(st[:i] + st[i + 1:])
+                if st[i].get('mut'):
+                    cands.append(st[:i] + [dict(cur['steps'][i + 1])] + st[i + 2:])  # … or dropping them too
+            for i, stp in enumerate(cur['steps']):
+                for j in range(len(stp.get('mut', []))):
+                    st = [dict(x) for x in cur['steps']]
+                    st[i] = dict(st[i], mut=stp['mut'][:j] + stp['mut'][j + 1:])
+                    cands.append(st)
+            for st in cands:
+                cand = dict(cur, steps=st, **{k: st[-1][k] for k in ('op', 'key', 'fn', 'mode')})
+                try:
+                    if pred(cand):
+                        cur = cand
+                        changed = True
+                        break
+                except Exception:
+                    pass
     return cur
 
 
@@ -123,6 +188,14 @@ def explore(seed, n_layouts, ops_per_layout, stats, cases_out):
                 case = dict(layout=layout, via_link=via_link, gitignore=gi, **pc.gen_op(rng, layout))
                 res = run_case(sbx, case, payload=b'W%d.%d' % (li, oi))
                 results.append((case, res))
+            for qi in range(max(2, ops_per_layout // 5)):
+                steps = pc.gen_sequence(rng, layout)
+                seq = dict(layout=layout, via_link=via_link, gitignore=gi, steps=steps)
+                for i, res in enumerate(run_sequence(sbx, seq, payload=b'S%d.%d' % (li, qi))):
+                    last = steps[i]
+                    # the case of step i = the sequence up to and including it (replayable on its own)
+                    results.append((dict(seq, steps=steps[:i + 1], op=last['op'], key=last['key'], fn=last['fn'],
+                                         mode=last['mode']), res))
     finally:
         sbx.close()
     return results
@@ -210,7 +283,8 @@ def run(ctx):
     repo = os.environ.get('VERIF_REPO', '/repo')
     violations, disagreements, samples = [], [], []
     dist = dict(ops={}, status={}, accepted=0, rejected_storage=0, rejected_other=0, changed_cases=0,
-                layouts=0, with_symlink_named=0, via_link=0, strace_cases=0, strace_calls=0, corpus=len(CORPUS))
+                layouts=0, with_symlink_named=0, via_link=0, strace_cases=0, strace_calls=0, corpus=len(CORPUS),
+                sequences=0, seq_steps=0, seq_steps_after_mutation=0, mutations={})
     seen = set()
     nontrivial = set()
     evaluations = 0
@@ -218,10 +292,22 @@ def run(ctx):
     def account(case, res):
         nonlocal evaluations
         evaluations += 1
-        sig = json.dumps([sorted(map(tuple, case['layout'])), case['via_link'], case['op'], case['key'], case['fn'], case['mode']])
+        sig = json.dumps([sorted(map(tuple, case['layout'])), case['via_link'], case['op'], case['key'], case['fn'], case['mode'],
+                          case.get('steps')])
         h = hash(sig)
         seen.add(h)
-        if pc.nontrivial(case):
+        if 'steps' in case:
+            dist['seq_steps'] += 1
+            if len(case['steps']) == 1:
+                dist['sequences'] += 1
+            mutated = any(s.get('mut') for s in case['steps'])
+            if mutated and len(case['steps']) > 1:
+                dist['seq_steps_after_mutation'] += 1
+            for m in case['steps'][-1].get('mut', []):
+                dist['mutations'][m[0]] = dist['mutations'].get(m[0], 0) + 1
+            if pc.nontrivial(case, set(res.get('links', []))) or (mutated and len(case['steps']) > 1):
+                nontrivial.add(h)
+        elif pc.nontrivial(case):
             nontrivial.add(h)
         op = case['op'] + (':' + case['mode'] if case['op'] == 'fh' else '')
         dist['ops'][op] = dist['ops'].get(op, 0) + 1
@@ -237,7 +323,7 @@ def run(ctx):
             dist['changed_cases'] += 1
         if case['via_link']:
             dist['via_link'] += 1
-        links = pc.layout_names(case['layout'])[2]
+        links = set(res['links']) if 'links' in res else pc.layout_names(case['layout'])[2]
         if any(c in links for c in [case['key']] + case['fn'].replace(pc.SBTOKEN, '').split('/')):
             dist['with_symlink_named'] += 1
 
@@ -262,13 +348,20 @@ def run(ctx):
         case = json.load(open(ctx['replay']))['replay']
         sbx = pc.Sandbox()
         try:
-            res = run_case(sbx, case)
+            if 'steps' in case:
+                rs = run_sequence(sbx, case)
+                batch = [(dict(case, steps=case['steps'][:i + 1], **{k: case['steps'][i][k] for k in ('op', 'key', 'fn', 'mode')}), r)
+                         for i, r in enumerate(rs)]
+                res = rs[-1]
+            else:
+                res = run_case(sbx, case)
+                batch = [(case, res)]
         finally:
             sbx.close()
-        check_batch([(case, res)])
+        check_batch(batch)
         for v in violations:
             v.pop('_unshrunk', None)
-        return dict(evaluations=1, distinct_nontrivial=len(nontrivial), rule='replay of one stored case',
+        return dict(evaluations=evaluations, distinct_nontrivial=len(nontrivial), rule='replay of one stored case',
                     samples=[dict(case=case, status=res['status'], changes=[c.replace(res['sb'], '{SB}') for c in res['changes']])],
                     violations=violations, disagreements=disagreements, distribution=dist, assumptions=ASSUMPTIONS,
                     explanation='replay')
@@ -279,7 +372,13 @@ def run(ctx):
         batch = []
         for c in CORPUS:
             case = {k: v for k, v in c.items() if k != 'name'}
-            batch.append((case, run_case(sbx, case)))
+            if 'steps' in case:
+                for i, r in enumerate(run_sequence(sbx, case)):
+                    stp = case['steps'][i]
+                    batch.append((dict(case, steps=case['steps'][:i + 1], op=stp['op'], key=stp['key'], fn=stp['fn'],
+                                       mode=stp['mode']), r))
+            else:
+                batch.append((case, run_case(sbx, case)))
         check_batch(batch)
     finally:
         sbx.close()
@@ -322,7 +421,7 @@ def run(ctx):
         return dict(infra_error=str(e))
     dist['layouts'] += n_workers * n_layouts
     check_batch([(r['case'], r) for r in res])
-    for r in res[:400:100]:
+    for r in [x for x in res if 'steps' not in x['case']][:400:100]:
         samples.append(dict(op=r['case']['op'], key=r['case']['key'], fn=r['case']['fn'], mode=r['case']['mode'],
                             via_link=r['case']['via_link'], layout_links=[e for e in r['case']['layout'] if e[1] == 'l'][:8],
                             status=r['status'], changes=[c.replace(r['sb'], '{SB}') for c in r['changes']]))
@@ -338,8 +437,8 @@ def run(ctx):
     # -------- strace sample (thorough): every path handed to a mutating / opening call
     if tier == 'thorough' and shutil.which('strace'):
         rng = random.Random(seed + 5)
-        pool = [r['case'] for r in res if not r['status'].startswith('err:StorageError')]
-        sample = [{k: v for k, v in c.items() if k != 'name'} for c in CORPUS] + rng.sample(pool, min(60, len(pool)))
+        pool = [r['case'] for r in res if not r['status'].startswith('err:StorageError') and 'steps' not in r['case']]
+        sample = [{k: v for k, v in c.items() if k != 'name'} for c in CORPUS if 'steps' not in c] + rng.sample(pool, min(60, len(pool)))
         from concurrent.futures import ThreadPoolExecutor
         with ThreadPoolExecutor(12) as ex:
             for case, (alarms, n) in zip(sample, ex.map(lambda c: strace_case(c, repo), sample)):
@@ -373,7 +472,11 @@ def run(ctx):
               'self and mutual loops / loop-fallback chains, optionally a symlinked storage root) + one operation '
               '(exists, delete, file_handle in modes r rb w wb a x r+ with a write, find_keys) with key and filename from the '
               'adversarial grammar; non-trivial = the key or a filename component is the name of a symlink of the layout, or the '
-              'key / filename contains a separator, a dot or a NUL; distinct by (layout, storage path, op, key, filename, mode)'),
+              'key / filename contains a separator, a dot or a NUL; distinct by (layout, storage path, op, key, filename, mode). '
+              'Sequence cases: ONE LocalStorage instance, 2-4 steps, each step = optional layout mutations made by the harness '
+              '(replace a key dir / file by a symlink to outside / a sibling / a loop, remove, recreate as dir or file) + one '
+              'operation, mostly on the same key; every step is an evaluation (snapshot + audit monitors, model asked statelessly '
+              'about the layout of that step); such a step is also non-trivial when it follows a mutation on the same instance'),
         samples=samples, violations=out_viol, disagreements=disagreements[:20], distribution=dict(dist, distinct=len(seen), enlarged=enlarged),
         assumptions=ASSUMPTIONS,
         explanation=(f'{evaluations} operations on the real LocalStorage, each between two full sandbox snapshots; '
@@ -393,7 +496,7 @@ def worker_main(argv):
     repo = os.environ.get('VERIF_REPO', '/repo')
     sys.path.insert(0, repo)
     results = explore(seed, n_layouts, ops, None, None)
-    json.dump([dict(case=c, status=r['status'], changes=r['changes'], alarms=r['alarms'], line=r['line'], sb=r['sb'])
+    json.dump([dict(case=c, status=r['status'], changes=r['changes'], alarms=r['alarms'], line=r['line'], sb=r['sb'], links=r['links'])
                for c, r in results], open(out, 'w'))
 
 
